@@ -398,7 +398,7 @@ func alignSelfTest() error {
 				}
 			}
 		}
-		if sp.gapSign < 0 && sp.gapOpen <= 0 {
+		if (sp.gapSign < 0 && sp.gapOpen <= 0) || sp.gapOpen == 0 {
 			for _, a := range strs3 {
 				for _, b := range strs3 {
 					if g, w := gotohLocal(a, b, m), bruteLocal(a, b, m); g != w {
